@@ -171,12 +171,13 @@ pub fn parse_number(data: &[u8], index: &mut usize, negative: bool) -> Result<Pa
         if *index >= data.len() || !matches!(data[*index], b'.' | b'e' | b'E') {
             // view -0 as float number
             if negative {
-                return Ok(ParserNumber::Float(0.0));
+                return Ok(ParserNumber::Float(-0.0));
             }
             return Ok(ParserNumber::Unsigned(0));
         }
 
-        // deal with 0e123 or 0.000e123
+        // deal with 0e123 or 0.000e123, keeping the sign of zero
+        let zero = if negative { -0.0 } else { 0.0 };
         match data[*index] {
             b'.' => {
                 *index += 1;
@@ -195,7 +196,7 @@ pub fn parse_number(data: &[u8], index: &mut usize, negative: bool) -> Result<Pa
                     while is_digit!(data, *index) {
                         *index += 1;
                     }
-                    return Ok(ParserNumber::Float(0.0));
+                    return Ok(ParserNumber::Float(zero));
                 }
 
                 // we calculate the first digit here for two reasons:
@@ -203,7 +204,7 @@ pub fn parse_number(data: &[u8], index: &mut usize, negative: bool) -> Result<Pa
                 // 2. we only need parse at most 16 digits in parse_number_fraction
                 // and it is friendly for simd
                 if !is_digit!(data, *index) {
-                    return Ok(ParserNumber::Float(0.0));
+                    return Ok(ParserNumber::Float(zero));
                 }
 
                 significant = digit!(data, *index);
@@ -236,7 +237,7 @@ pub fn parse_number(data: &[u8], index: &mut usize, negative: bool) -> Result<Pa
                 while is_digit!(data, *index) {
                     *index += 1;
                 }
-                return Ok(ParserNumber::Float(0.0));
+                return Ok(ParserNumber::Float(zero));
             }
             _ => unreachable!("unreachable branch in parse_number_unchecked"),
         }
